@@ -4,6 +4,7 @@ package session
 import (
 	"encoding/json"
 	"fmt"
+	"math/rand"
 	"os"
 	"regexp"
 	"sort"
@@ -424,7 +425,7 @@ func safeReplay(c *cas, skip map[string]bool) (sig, detail string) {
 
 func exec(kind byte, body []byte) *core.Verdict {
 	if kind == 'B' {
-		return &core.Verdict{OK: true, Out: true}
+		return genSession(body)
 	}
 	var c cas
 	if err := json.Unmarshal(body, &c); err != nil {
@@ -534,4 +535,130 @@ func check(r *core.Run) {
 	if r.Tier == "thorough" {
 		r.DirectionA("session", core.TLCOpts{Module: "MCSession", Cfg: "MCSession_thorough_six.cfg", Workers: 12, HeapGB: 16, Timeout: 0}, nil)
 	}
+	// direction B: long random histories over all catalogues at once, every operation a step of Session.tla
+	n := 300
+	if r.Tier == "thorough" {
+		n = 4000
+	}
+	r.DirectionB("session", n, core.TLCOpts{Module: "SessionTrace", Cfg: "SessionTrace.cfg", HeapGB: 8})
 }
+
+// ---- direction B: long random histories judged step by step by SessionTrace.tla ----------------
+
+var goodIDs = []string{"t2c", "ib", "bb-r1", "bb-r2", "e5", "i1", "t2", "a3", "m4", "s4", "t2b",
+	"fd", "e6", "tgt", "tgt2", "dv", "dvok", "rv", "lnk", "bg",
+	"idm", "idb", "fm1", "fm2", "fs", "au", "sr1", "sr2", "ibf"}
+
+// the two-module text whose second module is rejected is left out: what it leaves behind is the listed finding
+var badIDs = []string{"x-file-syntax", "x-top-level-grouping", "x-syntax", "x-typedefs-then-rejected", "x-unknown-top", "x-top-level-container"}
+
+func genSession(body []byte) *core.Verdict {
+	var q struct {
+		Seed int64
+		Tid  int
+	}
+	json.Unmarshal(body, &q)
+	rng := rand.New(rand.NewSource(q.Seed*49979687 + int64(q.Tid)))
+	tmp, err := os.MkdirTemp(core.Root+"/out", "sesb")
+	if err != nil {
+		return &core.Verdict{Infra: err.Error()}
+	}
+	defer os.RemoveAll(tmp)
+	os.Chdir(tmp)
+	reset, _ := json.Marshal(map[string]any{"ev": "reset", "tid": q.Tid})
+	events := []json.RawMessage{reset}
+	emit := func(m map[string]any) {
+		b, _ := json.Marshal(m)
+		events = append(events, b)
+	}
+	// a history stays within a handful of texts, so that names collide and dependencies meet
+	pool := append([]string{}, goodIDs...)
+	rng.Shuffle(len(pool), func(i, j int) { pool[i], pool[j] = pool[j], pool[i] })
+	pool = pool[:4+rng.Intn(5)]
+	// texts that belong together travel together
+	for _, grp := range [][]string{{"a3", "t2", "i1"}, {"ib", "bb-r1", "bb-r2"}, {"m4", "s4"}, {"dv", "tgt"}, {"dvok", "tgt"}, {"idm", "idb"}, {"au", "sr1", "sr2"}, {"fm1", "fs", "fm2"}} {
+		for _, p := range pool {
+			if p == grp[0] {
+				pool = append(pool, grp[1:]...)
+				break
+			}
+		}
+	}
+	ms := yang.NewModules()
+	accepted := []string{}
+	var hs []string
+	lastRun, anyRun := false, false
+	nops := 8 + rng.Intn(11)
+	nrun := 0
+	for i := 0; i < nops; i++ {
+		x := rng.Intn(100)
+		switch {
+		case x < 45:
+			id := pool[rng.Intn(len(pool))]
+			lerr := loadText(ms, id)
+			emit(map[string]any{"ev": "load", "text": id, "bad": false, "ok": lerr == nil})
+			if lerr == nil {
+				accepted = append(accepted, id)
+			}
+			hs = append(hs, "load("+id+")")
+			lastRun = false
+		case x < 58:
+			id := badIDs[rng.Intn(len(badIDs))]
+			lerr := loadText(ms, id)
+			emit(map[string]any{"ev": "load", "text": id, "bad": true, "ok": lerr == nil})
+			hs = append(hs, "load("+id+")")
+			lastRun = false
+		case x < 80 || (i == nops-1):
+			got := Dump(ms, ms.Process())
+			want := batch(accepted)
+			emit(map[string]any{"ev": "process", "accepted": append([]string{}, accepted...), "eq": got == want, "diff": firstDiff(got, want)})
+			hs = append(hs, "process")
+			lastRun, anyRun = true, true
+			nrun++
+		case x < 87:
+			if !anyRun || !lastProcess(hs) {
+				continue
+			}
+			queries(ms)
+			emit(map[string]any{"ev": "query"})
+			hs = append(hs, "query")
+			lastRun = false
+		case x < 94:
+			if len(accepted) == 0 {
+				continue
+			}
+			name := ""
+			for _, id := range accepted {
+				if m := reModName.FindStringSubmatch(Texts[id]); m != nil {
+					name = m[1]
+					break
+				}
+			}
+			if name == "" {
+				continue
+			}
+			_, gerrs := ms.GetModule(name)
+			got := Dump(ms, gerrs)
+			want := batch(accepted)
+			emit(map[string]any{"ev": "get", "accepted": append([]string{}, accepted...), "eq": got == want, "diff": firstDiff(got, want)})
+			hs = append(hs, "get("+name+")")
+			lastRun, anyRun = true, true
+			nrun++
+		default:
+			if !lastRun {
+				continue
+			}
+			ms.ClearEntryCache()
+			emit(map[string]any{"ev": "clear"})
+			hs = append(hs, "clear")
+			lastRun = false
+		}
+	}
+	v := &core.Verdict{OK: true, Class: "generated-history", NT: nrun >= 2, Events: events, N: int64(1 + nrun)}
+	if q.Tid == 1 {
+		v.Sample = map[string]any{"history": hs}
+	}
+	return v
+}
+
+func lastProcess(hs []string) bool { return len(hs) > 0 && hs[len(hs)-1] == "process" }
